@@ -335,7 +335,7 @@ theorem addObj_allJ {bt : List Builtin} {J : Obj → Prop} (k : ObjOK bt J) (F :
 /-- **loaders_keep_object_invariants**: with the universe invariant, `J` of every object is kept by the scans and loaders -/
 theorem allJ_keeps (w : World) (J : Obj → Prop) (k : ObjOK w.bt J) : Keeps w (fun u => Inv w.bt u ∧ AllJ J u) where
   same := fun _ _ ho ht hb hd _ _ _ h => ⟨(inv_of_same ho ht hb hd h.1).1, same_allJ ho h.2⟩
-  add := fun u ob u' h hf => ⟨(addObj_inv w.facts w.v2 w.fuel u ob u' h.1 hf).1, addObj_allJ k w.facts w.v2 w.fuel u ob u' h.1 h.2 hf⟩
+  add := fun u ob u' _ h hf => ⟨(addObj_inv w.facts w.v2 w.fuel u ob u' h.1 hf).1, addObj_allJ k w.facts w.v2 w.fuel u ob u' h.1 h.2 hf⟩
 
 theorem allJ_empty (J : Obj → Prop) : AllJ J {} := fun o ob h => by simp at h
 
